@@ -26,11 +26,43 @@ TYPES.update({"int": int, "str": str})
 
 
 def T(x):
-    """JSON value -> run-time term (lists become tuples, recursively)."""
+    """JSON value -> run-time term (lists become tuples, recursively).  {"__mut__": kind} builds a fresh mutable object."""
     if isinstance(x, list):
         return tuple(T(i) for i in x)
     if isinstance(x, dict):
+        if "__mut__" in x:
+            return new_mutable(x["__mut__"])
         return {k: T(v) for k, v in x.items()}
+    return x
+
+
+def new_mutable(kind):
+    if kind == "list":
+        return []
+    if kind == "dict":
+        return {"k": []}
+    if kind == "tuple_list":
+        return ([], "tag")
+    if kind == "nested_list":
+        return [[]]
+    raise AssertionError(kind)
+
+
+def mutate(obj, mark):
+    """What a generated node does to a mutable argument it received as a signature default."""
+    if isinstance(obj, list):
+        (obj[0] if obj and isinstance(obj[0], list) else obj).append(mark)
+    elif isinstance(obj, dict):
+        obj.setdefault("k", []).append(mark)
+    elif isinstance(obj, tuple) and obj and isinstance(obj[0], list):
+        obj[0].append(mark)
+
+
+def freeze(x):
+    if isinstance(x, (list, tuple)):
+        return tuple(freeze(i) for i in x)
+    if isinstance(x, dict):
+        return tuple(sorted((k, freeze(v)) for k, v in x.items()))
     return x
 
 
@@ -74,6 +106,8 @@ class Ctx:
         self.peak = 0
         self.funcs: dict = {}  # (fid, flavour) -> function (shared across nodes with the same fid)
         self.hooks: dict = {}  # fid -> callable(args) run inside the body (mutation tests etc.)
+        self.raw_args: list = []  # (fid, raw argument tuple) - object identities of what the functions received
+        self.keep_raw = False
 
     def calls(self, fid=None):
         if fid is None:
@@ -88,6 +122,7 @@ class Ctx:
         self.events.clear()
         self.inflight = 0
         self.peak = 0
+        self.raw_args.clear()
 
 
 def _should_fail(fail, args) -> bool:
@@ -160,6 +195,20 @@ def make_func(ctx: Ctx, spec: dict, flavour: str):
             return ans
         raise AssertionError(kind)
 
+    mutates = spec.get("mutates") or []
+
+    def _prep(a):
+        """Mutate the arguments the spec says this node mutates, remember the raw objects, continue with a frozen copy."""
+        if not mutates:
+            if ctx.keep_raw:
+                ctx.raw_args.append((fid, a))
+            return a
+        for idx, pname in enumerate(params):
+            if pname in mutates:
+                mutate(a[idx], ("m", fid))
+        ctx.raw_args.append((fid, a))
+        return freeze(a)
+
     def _pre(a):
         ctx.log.append((fid, a))
         hook = ctx.hooks.get(fid)
@@ -185,6 +234,7 @@ def make_func(ctx: Ctx, spec: dict, flavour: str):
                     await ctx.sched.park(("body", fid))
                 else:
                     await asyncio.sleep(0)
+                a = _prep(a)
                 _pre(a)
                 return result_for(a)
             finally:
@@ -198,6 +248,7 @@ def make_func(ctx: Ctx, spec: dict, flavour: str):
             ctx.inflight += 1
             ctx.peak = max(ctx.peak, ctx.inflight)
             try:
+                a = _prep(a)
                 _pre(a)
                 return result_for(a)
             finally:
